@@ -186,8 +186,15 @@ class Judge:
         self.mono = all(x.monotone_continuous() for x in self.refs)
         self.has_flat = any(s.num is not None and s.n1 == 0 for s in self.ref.scales)
         self.limit_tie = self._limit_tie()
+        self.limit_images: List[float] = []
+        if self.cat in ("LINEAR", "SCALE-LINEAR") and not self.ref.int_physical:
+            for sc in self.ref.scales:
+                for l in (sc.lo, sc.hi):
+                    if l.finite and sc.d0 != 0 and sc.num is not None:
+                        self.limit_images.append(float(sc.linear(l.value)))
         self.images: List[Tuple[Any, Any, Any, bool]] = []  # (v, observed, exact, tie)
         self.rt_ok: List[Tuple[Any, Any]] = []  # (p, v) pairs whose compu round trip passed
+        self.vmis: List[Tuple[str, str, Any, bool]] = []  # validity mismatches (dir, detail, v, exp)
 
     # -- helpers -----------------------------------------------------------
     def _limit_tie(self) -> bool:
@@ -228,10 +235,7 @@ class Judge:
         for s in self.ref.scales:
             for l, present in ((s.lo, s.lo.present), (s.hi, s.hi.present)):
                 if l.finite and l.value == frac(v):
-                    kind = l.kind.lower()
-                    if s.one_sided:
-                        kind = "single-" + kind
-                    best = kind + "-limit"
+                    best = l.kind.lower() + "-limit"
         return best or "off-limit"
 
     def _call(self, fn: Any, *a: Any) -> Tuple[str, Any]:
@@ -264,11 +268,9 @@ class Judge:
             col.count("ambiguous: TEXTTABLE default value")
         elif bool(obs_valid) != valid:
             detail = self._limit_detail(v)
-            if self.cat == "TEXTTABLE" and self.ref.int_default is not None and not valid and \
-                    detail == "off-limit":
+            if self.cat == "TEXTTABLE" and self.ref.int_default is not None and not valid:
                 detail = "internal-default"
-            self.bad(("valid-internal-wrong", self.cat, self.tp, detail),
-                     "is_valid_internal_value", v, expected=valid, observed=bool(obs_valid))
+            self.vmis.append(("rejects-valid" if valid else "accepts-invalid", detail, v, valid))
         near = valid or any(abs(frac(v) - frac(b)) <= 1 for b in limit_values(self.case)) \
             if isinstance(v, (int, float)) else False
         if near:
@@ -278,7 +280,8 @@ class Judge:
                 st, res = self._call(cm.convert_internal_to_physical, v)
                 col.ev()
                 if st == "foreign":
-                    self.bad(("i2p-foreign-exception", self.cat, self.tp, type(res).__name__),
+                    self.bad(("i2p-foreign-exception", self.cat, self.tp,
+                              self._zde_tag(res, self.ref.scales, v)),
                              "convert_internal_to_physical", v, problem=repr(res),
                              note="declared valid by is_valid_internal_value")
             return
@@ -292,11 +295,7 @@ class Judge:
         col.count(f"i2p:{self.cat}")
         multi = self.cat == "TEXTTABLE" and self.ref.matching_scales(v) > 1
         if st == "foreign":
-            why = type(obs).__name__
-            if isinstance(obs, ZeroDivisionError) and self.cat in ("RAT-FUNC", "SCALE-RAT-FUNC"):
-                sc = self.ref._first(self.ref.scales, frac(v))
-                if sc is not None and not sc.den:
-                    why += "/no-denominator"
+            why = self._zde_tag(obs, self.ref.scales, v)
             self.bad(("i2p-foreign-exception", self.cat, self.tp, why),
                      "convert_internal_to_physical", v, problem=repr(obs), expected=str(exact))
             return
@@ -304,6 +303,8 @@ class Judge:
             if multi:
                 col.count("ambiguous: value inside several TEXTTABLE scales")
                 return
+            if not obs_valid:
+                return  # already reported: the value is wrongly declared invalid
             self.bad(("i2p-raises-on-valid", self.cat, self.tp), "convert_internal_to_physical", v,
                      problem=repr(obs), expected=str(exact))
             return
@@ -320,6 +321,25 @@ class Judge:
         tie = self.ref.is_tie(exact, "i2p", mag)
         self.images.append((v, obs, exact, tie))
 
+    def flush_validity(self) -> None:
+        """report validity mismatches; a mismatch on a limit is only reported when the method
+        has no mismatch of the same direction away from the limits (one mechanism, one
+        signature)"""
+        for direction in ("rejects-valid", "accepts-invalid"):
+            mine = [m for m in self.vmis if m[0] == direction]
+            broad = [m for m in mine if not m[1].endswith("-limit")]
+            for _, detail, v, exp in (broad or mine):
+                self.bad(("valid-internal-wrong", self.cat, self.tp, f"{direction}/{detail}"),
+                         "is_valid_internal_value", v, expected=exp, observed=not exp)
+        self.vmis = []
+
+    def _zde_tag(self, exc: Any, scales: Any, x: Any) -> str:
+        why = type(exc).__name__
+        if isinstance(exc, ZeroDivisionError) and self.cat in ("RAT-FUNC", "SCALE-RAT-FUNC"):
+            if any(not sc.den for sc in scales):
+                why += "/no-denominator"
+        return why
+
     # -- physical values ---------------------------------------------------
     def physical(self, p: Any, origin: Any = None, origin_tie: bool = False,
                  in_range: bool = False) -> None:
@@ -334,7 +354,13 @@ class Judge:
         elif st == "odxerror":
             vp = False
         identity_claim = origin is not None and self.injective and not origin_tie and \
-            not self.limit_tie
+            not self.limit_tie and not self._near_limit_image(p)
+        agree, (kind, exact) = self._agree(lambda ref: ref.p2i_exact(p))
+        if identity_claim and not self.ref.int_physical and not isinstance(p, str):
+            # the double nearest to the exact image may coincide with the image of an excluded
+            # limit: claim only if the exact pre-image of the observed double is itself valid
+            identity_claim = agree and kind == "val" and isinstance(exact, Fraction) and \
+                accept_numeric(origin, exact, "A_FLOAT64", self.ref.p2i_magnitude(p))
         if identity_claim:
             col.ev()
             col.count(f"identity:{self.cat}")
@@ -342,37 +368,38 @@ class Judge:
                 self.bad(("image-not-declared-valid", self.cat, self.tp),
                          "is_valid_physical_value", p, origin_internal=origin,
                          note="p = convert_internal_to_physical(origin), origin is valid")
-        agree, (kind, exact) = self._agree(lambda ref: ref.p2i_exact(p))
         st, c = self._call(cm.convert_physical_to_internal, p)
         col.ev()
         col.count(f"p2i:{self.cat}")
         if origin is not None or vp:
             col.nontrivial((self.case["id"], "p", repr(p)))
         ref_valid = agree and kind == "val" and not (
-            self.ref.int_internal and isinstance(exact, Fraction) and exact.denominator != 1)
+            self.ref.int_internal and isinstance(exact, Fraction) and exact.denominator != 1) \
+            and not self.limit_tie and not self._near_limit_image(p) and \
+            not (isinstance(exact, Fraction) and self._near_limit_noise(exact))
         if st == "foreign":
             if vp or ref_valid or identity_claim:
-                self.bad(("p2i-foreign-exception", self.cat, self.tp, type(c).__name__),
+                self.bad(("p2i-foreign-exception", self.cat, self.tp,
+                          self._zde_tag(c, self.ref.inv_scales, p)),
                          "convert_physical_to_internal", p, problem=repr(c),
                          declared_valid=bool(vp), origin_internal=origin)
             return
         if st == "odxerror":
-            if self.cat == "SCALE-LINEAR" and self.mono and (origin is not None or in_range):
+            image_rejected = identity_claim and not vp  # reported above already
+            if self.cat == "SCALE-LINEAR" and self.mono and (origin is not None or in_range or vp):
                 col.count("monotone-encode-attempts")
                 self.bad(("cannot-encode-monotone", self.cat, self.tp),
                          "convert_physical_to_internal", p, problem=repr(c),
                          origin_internal=origin)
             elif vp:
-                detail = "declared-valid"
-                if self.cat == "TEXTTABLE":
-                    detail = "physical-default" if self.ref.phys_default is not None else "text"
-                elif self.cat == "TAB-INTP":
-                    detail = "table"
-                self.bad(("p2i-raises-on-declared-valid", self.cat, self.tp, detail),
+                self.bad(("p2i-raises-on-declared-valid", self.cat, self.tp,
+                          self._declared_detail(p)),
                          "convert_physical_to_internal", p, problem=repr(c),
                          origin_internal=origin)
-            elif ref_valid or identity_claim:
-                self.bad(("p2i-raises-on-valid", self.cat, self.tp),
+            elif image_rejected:
+                pass
+            elif (ref_valid or identity_claim) and self.cat != "SCALE-LINEAR":
+                self.bad(("p2i-raises-on-valid", self.cat, self.tp, self._valid_detail(p)),
                          "convert_physical_to_internal", p, problem=repr(c),
                          expected=str(exact) if ref_valid else origin, origin_internal=origin)
             return
@@ -401,8 +428,10 @@ class Judge:
             self.rt_ok.append((p, origin))
         # limits honoured: a physical value declared valid must not turn into an excluded
         # internal value
-        if vp and self.cat in ("LINEAR", "SCALE-LINEAR") and not self.has_flat and \
-                isinstance(c, (int, float)) and not isinstance(c, bool):
+        if vp and self.cat in ("LINEAR", "SCALE-LINEAR") and self.injective and \
+                not self.limit_tie and isinstance(c, (int, float)) and \
+                not isinstance(c, bool) and not self._near_limit_noise(c) and \
+                not self._near_limit_image(p):
             pre = self.ref.linear_preimages(p)
             if not any(self.ref.is_tie(x, "p2i", self.ref.p2i_magnitude(p)) for x in pre):
                 col.ev()
@@ -414,6 +443,48 @@ class Judge:
                              "convert_physical_to_internal", p, observed=c,
                              note="is_valid_physical_value(p) is True, the result is rejected by "
                              "is_valid_internal_value and lies outside the declared limits")
+
+    def _near_limit_image(self, p: Any) -> bool:
+        """real physical type: p cannot be told from the image of a limit in double arithmetic"""
+        if isinstance(p, str):
+            return False
+        return any(abs(float(p) - y) <= 1e-9 * max(1.0, abs(y)) for y in self.limit_images)
+
+    def _near_limit_noise(self, c: Any) -> bool:
+        """real internal type: the computed pre-image cannot be told from a limit value"""
+        if self.ref.int_internal:
+            return False
+        for b in limit_values(self.case):
+            if abs(float(c) - float(b)) <= 1e-9 * max(1.0, abs(float(b))):
+                return True
+        return False
+
+    def _declared_detail(self, p: Any) -> str:
+        if self.cat == "TEXTTABLE":
+            if sum(1 for sc in self.ref.scales if sc.const == p) > 1:
+                return "duplicate-text"
+            if self.ref.phys_default is not None:
+                return "physical-default"
+            return "text"
+        if self.cat == "TAB-INTP":
+            y = frac(p)
+            pts = self.ref.points
+            for (x0, y0), (x1, y1) in zip(pts, pts[1:]):
+                if y1 < y0 and y1 <= y <= y0:
+                    return "decreasing-segment"
+            return "table"
+        if self.cat == "SCALE-LINEAR":
+            return "invertible-method" if self.mono else "non-invertible-method"
+        return "declared-valid"
+
+    def _valid_detail(self, p: Any) -> str:
+        if self.cat in ("LINEAR", "SCALE-LINEAR"):
+            if self.has_flat:
+                return "constant-scale"
+            if any(l.finite and l.kind == "OPEN" for sc in self.ref.scales
+                   for l in (sc.lo, sc.hi)):
+                return "open-limit"
+        return "other"
 
     def physical_probes(self, r: random.Random) -> List[Tuple[Any, Any, bool, bool]]:
         """(p, origin, origin_tie, in_range)"""
@@ -453,13 +524,23 @@ class Judge:
                 if self.ref.int_physical:
                     if b - a > 1:
                         extra.append((a + 1, True))
+                        extra.append((b - 1, True))
                         extra.append((a + (b - a) // 2, True))
                 else:
-                    extra.append((a + (b - a) / 2, True))
+                    # not the midpoint: for an integral internal type that is a rounding tie
+                    extra.append((a + (b - a) * 0.25, True))
+                    extra.append((a + (b - a) * 0.75, True))
             step = 1 if self.ref.int_physical else 0.5
             for d in (step, 2 * step, 1000):
                 extra.append((lo - d, False))
                 extra.append((hi + d, False))
+            if len(nums) > 1:
+                g0, g1 = nums[1] - nums[0], nums[-1] - nums[-2]
+                if self.ref.int_physical:
+                    extra += [(lo - max(1, g0 // 3), False), (hi + max(1, g1 // 3), False)]
+                else:
+                    extra += [(lo - g0 * 0.3, False), (hi + g1 * 0.3, False),
+                              (lo - g0 * 0.7, False), (hi + g1 * 0.7, False)]
             if not self.ref.int_physical:
                 extra.append((math.nextafter(lo, -math.inf), False))
                 extra.append((math.nextafter(hi, math.inf), False))
@@ -549,6 +630,7 @@ class Judge:
             self.internal(v)
         for v in wrong_type_values(self.case):
             self.internal(v)
+        self.flush_validity()
         for p, origin, tie, inr in self.physical_probes(r):
             self.physical(p, origin, tie, inr)
         self.dop_level(r)
@@ -682,12 +764,14 @@ def replay(w: Dict[str, Any], col: common.Collector) -> None:
         return
     if call in ("is_valid_internal_value", "convert_internal_to_physical"):
         j.internal(v)
+        j.flush_validity()
         for vv, obs, exact, tie in j.images:
             j.physical(obs, vv, tie, True)
         return
     origin = w.get("origin_internal")
     if origin is not None:
         j.internal(origin)
+        j.vmis = []
         for vv, obs, exact, tie in j.images:
             j.physical(obs, vv, tie, True)
     else:
